@@ -274,8 +274,19 @@ def apply(doc, case_seed, i, gen, kinds=None):
             if isinstance(v, dict):
                 for s in v.values():
                     used.add(s.id)
-        k = r.choice(['add', 'remove', 'data'])
-        if k == 'add':
+        k = r.choice(['add', 'remove', 'data', 'rename-reuse'])
+        if k == 'rename-reuse':
+            # a source nothing refers to gets another id, the document is saved, and a NEW source takes the id that became free
+            c = [key for key, s in g.sourceById.items() if isinstance(s, source.FloatSource) and key not in used and s.id not in used and s.id == key]
+            if not c:
+                return None
+            key = r.choice(c)
+            old = g.sourceById.pop(key)
+            old.id = gen.uid(key + '-was')
+            g.sourceById[old.id] = old
+            doc.save()
+            g.sourceById[key] = source.FloatSource(key, numpy.array([gen.f32() for _ in range(6)], dtype=numpy.float32), ('X', 'Y', 'Z'))
+        elif k == 'add':
             sid = gen.uid(g.id + '-extra')
             g.sourceById[sid] = source.FloatSource(sid, numpy.array([gen.f32() for _ in range(6)], dtype=numpy.float32), ('X', 'Y', 'Z'))
         elif k == 'remove':
